@@ -8,6 +8,7 @@
      pp <fam> <type> <name>            -> null | str <string>
      ser <fam> <type> <name>           -> ok <bytes>
      deser <bytes>                     -> none | sa <fam> <type> <name>
+     deserpp <bytes>                   -> none | null | str <string>         (prettyprint(deserialize bytes))
      cmp <f1> <t1> <n1> <f2> <t2> <n2> -> ok <0|1>
      dup <fam> <type> <name>           -> sa <fam> <type> <name>
      ensure <string>                   -> str <string>
@@ -88,6 +89,12 @@ let () = iter_lines (fun line ->
   | ["ser"; f; t; nm] -> show_res (fun b -> "ok " ^ hex_of_bytes b) (sock_addr_serialize_m (sa_of f t nm))
   | ["deser"; b] ->
     show_res (function None -> "none" | Some sa -> "sa " ^ show_sa sa) (sock_addr_deserialize_m (bytes_of_hex b))
+  | ["deserpp"; b] ->
+    (match sock_addr_deserialize_m (bytes_of_hex b) with
+     | Ok None -> "none"
+     | Ok (Some sa) ->
+       show_res (function None -> "null" | Some s -> "str " ^ hex_of_bytes s) (sock_addr_prettyprint_x sa)
+     | r -> show_res (fun _ -> "") r)
   | ["cmp"; f1; t1; n1; f2; t2; n2] ->
     show_res (fun r -> "ok " ^ string_of_int (int_of_n r)) (sock_addr_cmp_m (sa_of f1 t1 n1) (sa_of f2 t2 n2))
   | ["dup"; f; t; nm] -> show_res (fun sa -> "sa " ^ show_sa sa) (sock_addr_dup_m (sa_of f t nm))
